@@ -34,6 +34,16 @@ CHECKS = {
              "duration conserved, later interval at shared boundaries). Larger random annotations and the adjust/merge "
              "calls recorded inside segment/chord.evaluate are judged the same way.",
         ref="4/C13"),
+    "C15": dict(
+        technique="TLA+ session specification (heap'=heap, outcome a function of the call); TLC-enumerated call "
+                  "histories executed on the code; every recorded call judged by a TLA+ trace spec",
+        text="Session.tla states purity and repeatability for every call; TLC enumerates all histories (length <=2 over 15 "
+             "entry-point letters x aliasing) which are executed on the real library with an external recorder "
+             "(sys.monitoring) on every function of all 16 modules, each call under two fillings of numpy.empty, plus long "
+             "seeded random histories (all tasks, util, sonify, separation; forward and reversed). Every call of a public "
+             "function, top-level or nested, yields a record (argument digests before/after, call key, outcome digest); "
+             "Trace_Session rejects argument-modified and same-call-different-outcome.",
+        ref="4/C15"),
 }
 
 PENDING = "check not built yet (build in progress; see DESIGN.md section 10)"
